@@ -484,7 +484,10 @@ func genRepro(t *rapid.T) ReproCase {
 	objPairs, mapPairs := []string{}, []string{}
 	for i, k := range keys {
 		objPairs = append(objPairs, fmt.Sprintf("%s: %d", k, i))
-		switch rapid.IntRange(0, 3).Draw(t, "mk") {
+		switch rapid.IntRange(0, 4).Draw(t, "mk") {
+		case 4:
+			// float keys that print alike (six decimals) but are distinct keys
+			mapPairs = append(mapPairs, fmt.Sprintf("%s: %d", rapid.SampledFrom([]string{"0.3", "(0.1 + 0.2)", "1.0000001", "1.00000011", "1.0", "2.5000004", "2.5000001"}).Draw(t, "fk"), i))
 		case 0:
 			mapPairs = append(mapPairs, fmt.Sprintf("%q: %d", k, i))
 		case 1:
